@@ -18,7 +18,9 @@ def noref(v):
 
 
 def is_usize_from_id(c):
-    return 'From<actor::Id> for usize' in c.callee or (c.is_('From::from', 'Into::into') and c.targs[:2] == ['usize', 'actor::Id'])
+    # usize::from(id), <usize as From<Id>>::from(id), id.into() with the target inferred as usize
+    return 'From<actor::Id> for usize' in c.callee or (c.is_('From::from') and c.targs[:2] == ['usize', 'actor::Id']) or \
+        (c.is_('Into::into') and c.targs[:2] == ['actor::Id', 'usize'])
 
 
 class NextState:
